@@ -13,7 +13,7 @@ RULE = ("cases = groups of Xml::decode calls (`dec`) on generated documents (com
         "references), on token soups, random bytes and exhaustive short strings over markup alphabets; plus Xml::encode (`enc`) "
         "and decode(encode(t)) (`rt`) on generated DOM trees up to depth 12 (compact and indented) with & < > quotes, blanks "
         "and bytes >= 0x80 in text and attribute values; documents nested up to 300000 (thorough: 10^6) levels; non-trivial = distinct case with at least one non-empty input")
-TRUSTED = ["harness/c07.cpp canonical dump (tag, Map-ordered attributes, children, text, per-child `child.parent() == container`)"]
+TRUSTED = ["harness/c07.cpp canonical dump (tag, Map-ordered attributes, children, text, per-child `child.parent() == container`, `result.parent().isnull()`)"]
 ASSUMPTIONS = [
     "libc strtoul(s, NULL, 16) on NUL-free strings behaves as AslModel.Xml.strtoul16 (C locale blanks, sign, 0x prefix, "
     "saturation at ULONG_MAX = 2^64-1); exercised by K on generated hex references",
@@ -469,6 +469,10 @@ def is_blank(s):
     return all(c in WS for c in s)
 
 
+def dump_root(t):
+    return "R+" + dump(t)
+
+
 def dump(t):
     if t[0] == "T":
         return "T" + hexs(t[1])
@@ -587,7 +591,7 @@ def ref_dec(data):
         return None
     if st["bad"] or len(st["stack"]) != 1 or len(st["stack"][0][3]) != 1:
         return None
-    return dump(st["stack"][0][3][0])
+    return dump_root(st["stack"][0][3][0])
 
 
 def reference(line):
@@ -606,7 +610,7 @@ def reference(line):
                 return hexs(compact(tr)) if t[1] == "0" else None
             if t[1] == "1" and not text_only_sole(tr):
                 return None
-            return dump(normalize(tr))
+            return dump_root(normalize(tr))
     except Exception:
         return None
     return None
@@ -618,6 +622,8 @@ def oracle(case, impl, model, crash):
         return True, "Xml::decode / encode did not terminate normally (memory error or abort): %s" % crash
     outs = [o for o in impl if o != "case"]
     for l, o in zip(case, outs):
+        if o.startswith("R!"):
+            return True, "the returned element's own parent() is not a null object (R! in the dump of: %s)" % l[:80]
         if "!" in o:
             return True, "a child's parent() is not the element that contains it (flag '!' in the dump of: %s)" % l[:80]
     for l, o in zip(case, outs):
@@ -680,7 +686,7 @@ def extra(ctx):
     for o in out[1:]:
         if o == "null":
             res["null"] += 1
-        elif o.startswith("E"):
+        elif o.startswith("R"):
             res["tree"] += 1
             if "+" in o:
                 res["tree_with_children"] += 1
@@ -698,8 +704,9 @@ LEVEL_TEXT = ("Proved in Lean 4 about the executable transcription of Xml::decod
               "reads top() of an empty stack (invariant over state x stack depth), and the character-reference buffer char bytes[5] always "
               "suffices (ref_buffer_fits, every int); termination is structural (one step per input byte); (2) xml_parent_links — in every "
               "returned tree, at every depth, each child's parent pointer is the identity of the element containing it; "
-              "(3) xml_roundtrip_compact — for EVERY element tree (any depth/fan-out) whose tag and attribute names pass the decoder's own "
-              "name tests, with arbitrary NUL-free attribute values and text, decode(encode(t,false)) is a tree whose erasure equals "
+              "(2b) xml_root_parent_null — the returned element's own parent is null (code after fix 5247de7; before it parent() read freed "
+              "memory); (3) xml_roundtrip_compact — for EVERY element tree (any depth/fan-out) whose tag and attribute names pass the decoder's own "
+              "name tests (xml_names_accepted: every XML 1.0 Name as UTF-8 bytes does), with arbitrary NUL-free attribute values and text, decode(encode(t,false)) is a tree whose erasure equals "
               "normalize(t) (merge adjacent text, drop whitespace-only text; normalize is an independent specification, proved equal to what "
               "the decoder rebuilds); (4) xml_roundtrip_indented — the same for encode(t,true) when text occurs only as a sole child; "
               "(5) escape_unescape — reference expansion inverts escape on all NUL-free bytes incl. & < > ' \" and bytes >= 0x80, in text and "
